@@ -92,6 +92,9 @@ func (h Hilbert2D) Coord(dst []int, pos int) []int {
 	} else if len(dst) != 2 {
 		panic("len(dst) must equal 2")
 	}
+	for i := range dst {
+		dst[i] = 0
+	}
 	for n := 0; n < h.order; n++ {
 		e := pos & 3
 		h.rot(n, dst[:], e)
@@ -183,6 +186,9 @@ func (h Hilbert3D) Coord(dst []int, pos int) []int {
 		dst = make([]int, 3)
 	} else if len(dst) != 3 {
 		panic("len(dst) must equal 3")
+	}
+	for i := range dst {
+		dst[i] = 0
 	}
 	for n := 0; n < h.order; n++ {
 		e := pos & 7
@@ -287,6 +293,9 @@ func (h Hilbert4D) Coord(dst []int, pos int) []int {
 		dst = make([]int, 4)
 	} else if len(dst) != 4 {
 		panic("len(dst) must equal 4")
+	}
+	for i := range dst {
+		dst[i] = 0
 	}
 	N := 4
 	for n := 0; n < h.order; n++ {
